@@ -95,11 +95,13 @@ func (core *JApiCore) collectPathVariables(d *directive.Directive) *jerr.JApiErr
 		return d.KeywordError(jerr.ParentNotFound)
 	}
 
-	parentDirective := *d.Parent
+	parentDirective := d.Parent
 
 	if len(core.rawPathVariables) != 0 {
+		// Two copies of a directive (pasted from a macro, included twice) have the same
+		// coordinates but are different directives.
 		prevParent := core.rawPathVariables[len(core.rawPathVariables)-1].parentDirective
-		if prevParent.Equal(parentDirective) {
+		if prevParent == parentDirective {
 			return d.KeywordError(jerr.NotUniqueDirective)
 		}
 	}
